@@ -6,6 +6,7 @@
 
 use crate::node::{fresh_dir, StatusKind};
 use grin_chain::BlockStatus;
+use grin_keychain::Keychain;
 use grin_p2p::ChainAdapter as NetChainAdapter;
 use grin_servers::common::adapters::{ChainToPoolAndNetAdapter, NetToChainAdapter, PoolToChainAdapter, PoolToNetAdapter};
 use grin_servers::common::hooks::ChainEvents;
@@ -195,6 +196,13 @@ pub enum Submit {
 	DependentTwoParents,
 	/// a transaction that sits in the stempool is broadcast (what happens when its embargo expires)
 	FluffStemmed,
+	/// a no-recent-duplicate kernel with an excess never used before
+	NrdFresh,
+	/// an NRD kernel whose excess occurred in a block of the current chain fewer than
+	/// relative_height blocks below the next block
+	NrdRecentDuplicate,
+	/// the same, exactly relative_height blocks below the next block
+	NrdJustOldEnough,
 }
 
 #[derive(Serialize, Deserialize, Clone, Debug, PartialEq)]
@@ -314,6 +322,10 @@ impl<'w> PoolSim<'w, PoolToNetAdapter> {
 	/// Network mode: the node is assembled with its complete p2p stack (E11 netsim); submissions and
 	/// blocks arrive as peer messages, the pool relays through the real `PoolToNetAdapter`.
 	pub fn new_net(world: &'w mut World, start: usize, tag: &str, with_relay: bool) -> Result<PoolSim<'w, PoolToNetAdapter>, String> {
+		if world.cfg.nrd {
+			// the node's peer threads read the process-wide flag
+			global::set_global_nrd_enabled(true);
+		}
 		let dir = fresh_dir(tag);
 		let base: Vec<Block> = world.path_to(start).into_iter().filter(|i| *i != 0).map(|i| world.blocks[i].block.clone()).collect();
 		let link = crate::netsim::NetLink::new(&dir, world.genesis.clone(), pool_config(), &base, world.opts, with_relay)?;
@@ -1114,6 +1126,70 @@ impl<'w, P: PoolAdapter + 'static> PoolSim<'w, P> {
 					None
 				}
 			}
+			Submit::NrdFresh | Submit::NrdRecentDuplicate | Submit::NrdJustOldEnough => {
+				use grin_core::core::NRDRelativeHeight;
+				let hv4 = grin_core::consensus::header_version(next_h) >= grin_core::core::HeaderVersion(4);
+				if !self.world.cfg.nrd || !hv4 || free.is_empty() {
+					None
+				} else {
+					let x = free[0].clone();
+					let fee = Self::plain_fee(1, 1);
+					let ff = FeeFields::new(0, fee).unwrap();
+					// excesses that occurred in a block of the current chain and are not in the pool now
+					let pooled: BTreeSet<Hash> = self.pooled_kernels(true);
+					let _ = &pooled;
+					let in_pool: BTreeSet<CommitKey> = {
+						let p = self.pool.read();
+						p.txpool.all_transactions().iter().chain(p.stempool.all_transactions().iter()).flat_map(|t| t.kernels().iter().map(|k| ckey(&k.excess)).collect::<Vec<_>>()).collect()
+					};
+					let secp_commit = |k: &grin_util::secp::key::SecretKey, w: &World| ckey(&w.wallet.keychain.secp().commit(0, k.clone()).expect("commit"));
+					let on_chain: Vec<(grin_util::secp::key::SecretKey, u64)> = self
+						.world
+						.nrd_keys
+						.iter()
+						.filter_map(|k| {
+							let ex = secp_commit(k, &*self.world);
+							if in_pool.contains(&ex) {
+								return None;
+							}
+							self.world.blocks[self.head].nrd_last.get(&ex).map(|p| (k.clone(), *p))
+						})
+						.collect();
+					if *kind == Submit::NrdFresh {
+						let rh = rng.range(1, 3);
+						expect = Some(true);
+						self.probe("nrd_fresh_submitted");
+						let f = KernelFeatures::NoRecentDuplicate { fee: ff, relative_height: NRDRelativeHeight::new(rh).unwrap() };
+						if x.value > fee + 1 {
+							let (tx, _, key) = self.world.wallet.build_tx_ex(&[x.clone()], &[x.value - fee], None, f, None);
+							if !self.world.nrd_keys.iter().any(|k| k == &key) {
+								self.world.nrd_keys.push(key);
+							}
+							Some(tx)
+						} else {
+							None
+						}
+					} else if let Some((key, p)) = on_chain.last().cloned() {
+						let dist = next_h - p;
+						let recent = *kind == Submit::NrdRecentDuplicate;
+						let rh = if recent { dist + 1 } else { dist };
+						if rh >= 1 && rh <= 1440 && x.value > fee + 1 {
+							expect = Some(!recent);
+							self.probe(if recent { "nrd_recent_duplicate_submitted" } else { "nrd_just_old_enough_submitted" });
+							if recent && !self.pool.read().txpool.all_transactions().is_empty() {
+								self.probe("nrd_recent_duplicate_next_to_other_kernels");
+							}
+							let f = KernelFeatures::NoRecentDuplicate { fee: ff, relative_height: NRDRelativeHeight::new(rh).unwrap() };
+							let (tx, _, _) = self.world.wallet.build_tx_ex(&[x.clone()], &[x.value - fee], None, f, Some(key));
+							Some(tx)
+						} else {
+							None
+						}
+					} else {
+						None
+					}
+				}
+			}
 			Submit::NoSuchInput => {
 				let key_id = self.world.wallet.fresh_key();
 				let value = 5_000_000_000u64;
@@ -1279,7 +1355,7 @@ pub fn gen_ops(rng: &mut SimRng, thorough: bool) -> Vec<Op> {
 	for _ in 0..n {
 		let k = rng.below(100);
 		let op = if k < 55 {
-			let kind = match rng.below(31) {
+			let kind = match rng.below(32) {
 				0..=6 => Submit::Valid,
 				7 | 8 => Submit::Dependent,
 				9 | 10 => Submit::Conflict,
@@ -1299,7 +1375,10 @@ pub fn gen_ops(rng: &mut SimRng, thorough: bool) -> Vec<Op> {
 				25 => Submit::AggregatedUnderFee,
 				26 => Submit::MixedMaturityCoinbases,
 				27 => Submit::DependentTwoParents,
-				_ => Submit::FluffStemmed,
+				28 => Submit::FluffStemmed,
+				29 => Submit::NrdFresh,
+				30 => Submit::NrdRecentDuplicate,
+				_ => Submit::NrdJustOldEnough,
 			};
 			Op::Submit { kind, stem: rng.chance(1, 4), r: rng.next_u64() }
 		} else if k < 70 {
@@ -1344,6 +1423,7 @@ pub fn gen_ops(rng: &mut SimRng, thorough: bool) -> Vec<Op> {
 	for (i, op) in tail.into_iter().enumerate() {
 		ops.insert(at + i, op);
 	}
+	ops.extend(nrd_sequence(rng));
 	ops
 }
 
@@ -1387,16 +1467,32 @@ pub fn gen_ops_c13(rng: &mut SimRng, thorough: bool) -> Vec<Op> {
 	for (i, op) in seq.into_iter().enumerate() {
 		ops.insert(at + i, op);
 	}
+	ops.extend(nrd_sequence(rng));
 	ops
+}
+
+/// (worlds with NRD kernels enabled; skipped elsewhere) an NRD kernel gets mined, then - with an
+/// ordinary transaction waiting in the pool - the same excess comes back one block too early and,
+/// later, exactly on time.
+fn nrd_sequence(rng: &mut SimRng) -> Vec<Op> {
+	vec![
+		Op::Submit { kind: Submit::NrdFresh, stem: false, r: rng.next_u64() },
+		Op::MinePool { r: rng.next_u64() },
+		Op::Submit { kind: Submit::Valid, stem: false, r: rng.next_u64() },
+		Op::Submit { kind: Submit::NrdRecentDuplicate, stem: false, r: rng.next_u64() },
+		Op::MineEmpty { r: rng.next_u64() },
+		Op::Submit { kind: Submit::NrdRecentDuplicate, stem: false, r: rng.next_u64() },
+		Op::Submit { kind: Submit::NrdJustOldEnough, stem: false, r: rng.next_u64() },
+	]
 }
 
 pub fn build_world(seed: u64) -> Result<(World, usize), String> {
 	let mut r = SimRng::new(seed).fork("cfg");
 	let mut cfg = WorldCfg::draw(&mut r, true);
 	cfg.free_difficulty = false;
-	cfg.nrd = false;
+	cfg.nrd = seed % 2 == 0;
 	cfg.branches = 0;
-	cfg.trunk = r.range(8, 12);
+	cfg.trunk = if cfg.nrd { r.range(10, 13) } else { r.range(8, 12) };
 	cfg.tx_pct = 50;
 	cfg.max_txs = 2;
 	let mut w = World::new(seed, cfg, "pool-w");
@@ -1498,7 +1594,7 @@ pub fn case_c13(tier: &str, seed: u64, case: u64) -> CaseResult {
 		}
 		res.extra.insert("poolsim_runs".into(), json!(res.runs));
 		if let Some(v) = v {
-			let relevant = ["ImmatureCoinbase", "JustMatureCoinbase", "LockFuture", "LockNext", "MixedMaturityCoinbases"].iter().any(|k| v.key == format!("C14:submit-result:{}", k));
+			let relevant = ["ImmatureCoinbase", "JustMatureCoinbase", "LockFuture", "LockNext", "MixedMaturityCoinbases", "NrdRecentDuplicate", "NrdJustOldEnough", "NrdFresh"].iter().any(|k| v.key == format!("C14:submit-result:{}", k));
 			if relevant {
 				res.violations.push(Violation {
 					key: v.key.replace("C14:submit-result:", "C13:pool-answer:"),
